@@ -123,6 +123,10 @@ def run(ctx):
                 cw = dict(c, params=dict(c["params"], wiring=True), name=str(c.get("name")) + "+wiring")
                 cw.pop("expect", None)
                 fixed2.append(cw)
+                if ctx.tier != "quick":
+                    # ... and with the persistence wrappers bootstrap puts around currentTerm / votedFor / plog (badger, scratch directory)
+                    cp = dict(cw, params=dict(cw["params"], persist=True), name=str(c.get("name")) + "+wiring+persist")
+                    fixed2.append(cp)
         for c in fixed2:
             w, steps, failures, spec_lc = run_fixed(h, c)
             spec_lc_total += spec_lc
